@@ -18,7 +18,9 @@ import (
 )
 
 // endHeights lists, per height, the indices of the EndHeightMessage records of a log, and tells
-// whether the heights appear in non-decreasing order (what a real node writes).
+// whether the heights > 0 appear in non-decreasing order (what a real node writes). EndHeightMessage{0}
+// is exempt: BaseWAL.OnStart writes it whenever the head file is empty, i.e. also on a restart right
+// after a rotation, so it legitimately appears after higher markers.
 func endHeights(recs []consensus.TimedWALMessage) (occ map[int64][]int, monotone bool) {
 	occ = map[int64][]int{}
 	monotone = true
@@ -26,6 +28,9 @@ func endHeights(recs []consensus.TimedWALMessage) (occ map[int64][]int, monotone
 	for i := range recs {
 		if m, ok := recs[i].Msg.(consensus.EndHeightMessage); ok {
 			occ[m.Height] = append(occ[m.Height], i)
+			if m.Height == 0 {
+				continue
+			}
 			if m.Height < last {
 				monotone = false
 			}
@@ -98,6 +103,46 @@ func checkSearch(wal *consensus.BaseWAL, lc *logCase, occ map[int64][]int, monot
 		out("search-nil-reader", fmt.Sprintf("SearchForEndHeight(%d) reports found with a nil reader", h))
 		return
 	}
+	if clean {
+		// undamaged log: the reader must yield exactly the records written after (some occurrence of) the marker
+		dec := consensus.NewWALDecoder(rd)
+		var got []*consensus.TimedWALMessage
+		var derr error
+		for len(got) <= lc.n() {
+			var m *consensus.TimedWALMessage
+			if m, derr = dec.Decode(); derr != nil {
+				break
+			}
+			got = append(got, m)
+		}
+		ok := false
+		if derr != nil && classify(derr) == ecEOF {
+			for _, i := range occ[h] {
+				if len(got) != lc.n()-(i+1) {
+					continue
+				}
+				same := true
+				for k := range got {
+					if !eqTimed(got[k], &lc.recs[i+1+k]) {
+						same = false
+						break
+					}
+				}
+				if same {
+					ok = true
+				}
+			}
+		}
+		if !ok {
+			first := "nothing"
+			if len(got) > 0 {
+				first = canonTimed(got[0])
+			}
+			out("search-position", fmt.Sprintf("after SearchForEndHeight(%d) (marker at record(s) %v of %d) the reader yields %d messages then %v (first: %s); expected exactly the records after the marker",
+				h, occ[h], lc.n(), len(got), derr, first))
+		}
+		return
+	}
 	m, derr := consensus.NewWALDecoder(rd).Decode()
 	ok := false
 	for _, i := range occ[h] {
@@ -109,7 +154,7 @@ func checkSearch(wal *consensus.BaseWAL, lc *logCase, occ map[int64][]int, monot
 			ok = true
 		}
 	}
-	if !ok && !clean && derr != nil && classify(derr) != ecOther {
+	if !ok && derr != nil && classify(derr) != ecOther {
 		ok = true // the record after the marker is damaged or gone
 	}
 	if !ok {
